@@ -101,17 +101,23 @@ func Commit(db *NoKV.DB, latches *latch.Manager, req *pb.CommitRequest) *pb.KeyE
 		if err != nil {
 			return keyErrorRetryable(err)
 		}
-		if lock == nil {
+		if lock == nil || lock.Ts != req.StartVersion {
+			// The transaction no longer holds the key: its own write record
+			// decides. A commit record means the commit already happened
+			// (repeated request); a rollback record means it can never commit.
 			write, _, err := reader.GetWriteByStartTs(key, req.StartVersion)
 			if err != nil {
 				return keyErrorRetryable(err)
 			}
 			if write != nil {
+				if write.Kind == pb.Mutation_Rollback {
+					return keyErrorAbort("transaction already rolled back")
+				}
 				continue
 			}
-			return keyErrorAbort("lock not found")
-		}
-		if lock.Ts != req.StartVersion {
+			if lock == nil {
+				return keyErrorAbort("lock not found")
+			}
 			return keyErrorLocked(key, lock)
 		}
 		if err := commitKey(db, reader, key, lock, req.CommitVersion); err != nil {
